@@ -267,6 +267,18 @@ pub fn run(cx: &mut Ctx) {
     if cx.prop == "C06" {
         super::jhf8::run_f8(cx);
     }
+    // "all messages of all lengths": a few cases per run hash as if a very long prefix had been
+    // absorbed (length counter fast-forwarded through hook H2 on the implementation and on the
+    // reference alike), so that counter words and length fields beyond 2^32 are exercised too
+    if !cfg!(miri) {
+        let fam_menu: Vec<HashId> = if menu[0].fam == Fam::Skein {
+            [256u32, 512, 1024].iter().map(|&bits| HashId { fam: Fam::Skein, bits, out: 32 }).collect()
+        } else {
+            menu.clone()
+        };
+        let n = (cx.budget / 40).max(8);
+        super::counters::run_ff_menu(cx, n, &fam_menu);
+    }
 }
 
 pub fn replay(cx: &mut Ctx, desc: &str) {
